@@ -112,6 +112,17 @@ func MakePayload(r *rand.Rand, class string) Payload {
 			}
 		}
 		b = b[:n]
+	case "farrepeat": // an incompressible block repeated at one far distance: every match uses the same (high) distance code
+		l := []int{24577, 32768, 30000, 16385, 24576, 8193}[r.Intn(6)] + r.Intn(3)
+		if l > 32768 {
+			l = 32768
+		}
+		blk := make([]byte, l)
+		r.Read(blk)
+		for k := 0; k < 2+r.Intn(2); k++ {
+			b = append(b, blk...)
+		}
+		b = b[:len(b)-r.Intn(100)]
 	case "multiblock": // several hundred KB of mixed content: 4+ bzip2 -1 blocks, several 64 KiB deflate/xz units
 		n := 330000 + r.Intn(150000)
 		for len(b) < n {
@@ -148,7 +159,7 @@ func MakePayload(r *rand.Rand, class string) Payload {
 	return Payload{class, b}
 }
 
-var PayloadClasses = []string{"empty", "one", "tiny", "text", "random", "runs", "ff", "window", "big", "lowentropy"}
+var PayloadClasses = []string{"empty", "one", "tiny", "text", "random", "runs", "ff", "window", "big", "lowentropy", "farrepeat"}
 
 // Encoders ----------------------------------------------------------------
 
